@@ -174,6 +174,84 @@ CHECKS = {
         "new/read/enter/leave/save/load programs on real operators with exact signed-permutation contexts compared exactly with the "
         "model; 21 Saveable classes x {none, units, basis} context at save x at load monitored (raw content, observables 1e-12).",
    design="7/C18", technique="Coq proof (list-level model of pack/extract/format dispatch; C04 state machine extended with save/load) + exhaustive finite matrix and random programs compared exactly in Coq"),
+ "C02": dict(
+   text="Proved in Coq over any commutative *-ring with imaginary unit, every dimension, EVERY expansion order (any prefactor list), "
+        "refinement factor and number of steps: every stored density matrix has the trace of the initial one whenever the generators "
+        "of the refined steps (one per step: time-dependent tensors) annihilate the trace - shown for the tensor form (given C01's "
+        "trace identity), the operator form (unconditionally) and pure-dephasing multipliers with unit diagonal; every stored state "
+        "stays Hermitian for Hermitian H, real prefactors and generators commuting with the dagger (tensor form given C01's "
+        "Hermiticity identity, operator form for real K and Ld = L^dagger, Hermitian dephasing multipliers); the Lindblad operator "
+        "form IS the GKSL dissipator; RWA conversion with unimodular phases keeps Hermiticity, trace and populations, is undone by "
+        "the conjugate phases and (repaired elementwise form) commutes with forming psi psi^dagger; refutation witness for the pinned "
+        "state-vector conversion (fix: commit); unitarity defect T_L(x)T_L(-x) = 1 + O(x^(L+2)) as exact polynomial identities for "
+        "L = 2, 4, 6 (the a-priori drift of norm/purity/energy per step). Validated only (named limits): positive semidefiniteness and "
+        "distance to the exact GKSL exponential within the truncation bound, purity/energy drift, state-vector vs density-matrix "
+        "agreement, RWA-frame vs laboratory-frame dynamics - against scipy.linalg.expm with the bound 2NC(x^(L+1)/(L+1)!)e^x; the "
+        "operator-norm remainder estimate behind that bound is cited, not mechanised.",
+   note=TB + "All C02 theorems closed under the global context. Tie: ReducedDensityMatrixPropagator.propagate (closed, tensor, operator "
+        "form, time-dependent tensor with index stride and cut-off, Lorentzian/Gaussian pure dephasing, orders 2/4/6, Nref 1-3) and "
+        "StateVectorPropagator.propagate on integer generators with dyadic steps compared (1e-10 relative) inside Coq with the model run "
+        "in exact complex-rational arithmetic, whose own run is checked to conserve the trace exactly and stay exactly Hermitian; RWA "
+        "conversions compared on the run's own phases. numpy.exp values (dephasing multipliers, phases) are oracles. Field-driven "
+        "propagation (raises NOT IMPLEMENTED upstream) and inhomogeneous terms are not modelled.",
+   design="7/C02", technique="Coq proof (Taylor loop abstracted over generator sequences: invariants and relational lemmas by induction; ring/field identities) + in-Coq differential correspondence in exact rational arithmetic"),
+ "C07": dict(
+   text="Proved in Coq over any commutative *-ring, every dimension and number of bath components: the tensor built by "
+        "_convert_operators_2_tensor, applied by tensordot, acts on EVERY operator exactly as the operator form K rho L^+ + L rho K^T - "
+        "K^T L rho - rho L^+ K for whatever operators are stored (so before and after conversion); likewise the time-dependent assembly "
+        "for symmetric K; hence both forms generate identical stored states for every order, refinement, number of steps and dephasing "
+        "map; transforming the stored operators and the operand by a real orthogonal S transforms the result (every basis; with C04's "
+        "covariance of the tensor form both stay equal); the time-dependent tensor is zero wherever Lambda_m is zero (time zero) and "
+        "equals the time-independent one wherever its Lambda_m do (last index); the Lindblad operator form is the GKSL dissipator; the "
+        "repaired tensor-index walk of time-local propagation never leaves the stored range and agrees with the pinned one below the "
+        "cut-off, which ran off the end (witness). Two fix: commits: the index walk (IndexError in tensor form with a cut-off time) and "
+        "the time-dependent operator form not being presented in the current basis. Validated only: the analytic pure-dephasing limit "
+        "exp(-i w t - g(t)) for uncoupled sites (5e-3 at a 1 fs step); that FITPACK antiderivatives vanish at the lower limit.",
+   note=TB + "All C07 theorems closed under the global context. Tie: apply() of real LindbladForm/RedfieldRelaxationTensor objects "
+        "holding integer operators in both forms compared with = inside Coq; propagation in both forms against the exact-rational "
+        "propagator model (1e-10); float monitors on random aggregates: both forms inside/outside basis contexts (apply and propagate, "
+        "time independent and time dependent, with and without cut-off), R_TD(0) = 0 exactly, R_TD(last) = R_TI within 1e-12 relative.",
+   design="7/C07", technique="Coq proof (index-level ring algebra, relational induction over the Taylor loop) + exact in-Coq correspondence on integer operators"),
+ "C08": dict(
+   text="Proved in Coq over any commutative *-ring, every dimension, grid length, dense-step setting >= 1, order and number of "
+        "incremental steps: data[i] is the i-th tensordot power of Udt - the identity at time zero - and powers compose, "
+        "U(t_i+t_j) = U(t_i)U(t_j); Udt built by Ndense-1 contractions is the Ndense-th power of the elementary tensor; mode 'jit' after "
+        "k calls holds counter k and the same tensor as mode 'all'; the elementary tensor assembled column by column from propagated "
+        "matrix units IS the tensor Taylor polynomial of the generator, so the superoperator applied to ANY state reproduces direct "
+        "propagation of that state (linearity obtained by running the same loop on tensors); at every grid time it preserves the trace "
+        "(sum_a U[a,a,c,d] = delta_cd) and commutes with Hermitian conjugation when the generator annihilates traces and commutes with "
+        "the dagger; -i[H,.] + R (H Hermitian, R as in C01) and Lorentzian pure dephasing qualify. Validated only: refining the dense "
+        "step changes U within (twice) the truncation bound (against scipy expm).",
+   note=TB + "All C08 theorems closed under the global context. Tie: EvolutionSuperOperator.calculate / calculate_next (save on and off) / "
+        "apply / at on integer generators with dyadic dense steps: data at every grid time, the jit tensor after every call and "
+        "apply(t_i, rho) compared (1e-10 relative) inside Coq with the model in exact rational arithmetic; float monitors (Lindblad, with "
+        "and without Lorentzian dephasing): identity, semigroup, trace/Hermiticity, apply vs propagate. Gaussian dephasing and "
+        "time-dependent tensors (recomputed per interval; the semigroup clause is stated for time-independent generators) are not part "
+        "of this check; apply(time='all') raises AttributeError in the package (noted, outside the property).",
+   design="7/C08", technique="Coq proof (tensor algebra under tensordot, relational induction transferring the Taylor loop from states to tensors) + in-Coq differential correspondence in exact rational arithmetic"),
+ "C12": dict(
+   text="Proved in Coq over any commutative ring and for every line-shape function: the orientational prefactor F4e.M4.F4n is "
+        "invariant under a common orthogonal transformation of all four dipoles or of all four polarisations (improper ones "
+        "included), quartic in a common dipole factor, symmetric between fields and dipoles, and characterised as the isotropic "
+        "average: every single orientation contracted over an orthonormal frame gives (d0.d1)(d2.d3), 30x the formula satisfies the "
+        "three contraction identities, and any form F4(e).M.F4(d) satisfying them has 30M = [[4,-1,-1],[-1,4,-1],[-1,-1,4]] "
+        "(uniqueness); generated pathway lists are literally unchanged by a common dipole rotation and the response scales as s^4; "
+        "calculate_one on the C19 storage model gives total = rephasing + non-rephasing; for dimers and trimers of uncoupled "
+        "two-level molecules (the property's quantifier) the response with excited-state absorption equals the sum of the molecular "
+        "responses, symbolically in energies, dipoles, widths, t2 factors and selection flags (Gaussian widths; Lorentzian with equal "
+        "dephasings); refutation witness for Lorentzian lines with unequal dephasings (known finding, not repaired). Two fix: commits "
+        "(numpy.int in the pathway constructor; transposed eigenvector matrix in Aggregate.diagonalize). Cited, not mechanised: that "
+        "the SO(3) average of the quartic form is isotropic (hence of the form F4.M.F4) - monitored against the 60-element "
+        "icosahedral-group average and an exact-for-degree-4 Euler quadrature (1e-10). Validated only: relabelling symmetry, "
+        "rotation of polarisations at response level.",
+   note=TB + "All C12 theorems closed under the global context. Tie: the real liouville_pathways_3T generators on diagonalised "
+        "aggregates (N<=3, integer parameters, coupled and uncoupled, synthetic evolution superoperators, dark molecules, degenerate "
+        "energies) compared pathway by pathway inside Coq (order, name, type, transitions, sign exactly; frequencies, widths, dephasings, "
+        "evolution factor, prefactor within 1e-11) with the model fed the observed exciton-basis data (eigh an oracle); real "
+        "liouville_pathway/LabSetup prefactors; real MockTwoDResponseCalculator monitors (R+NR, rotations, scaling, relabelling, "
+        "additivity). Line shapes (cvoigt/erfcx, lorentzian) are oracles. Cancellation is proved for N = 2, 3 only; the selection "
+        "threshold sqrt(D2_max)*dtol is inhomogeneous in the dipole scale (the scaling theorem states 'same selection').",
+   design="7/C12", technique="Coq proof (ring; symbolic evaluation of the transcribed pathway generators) + in-Coq differential correspondence in exact rational arithmetic, numerical SO(3) quadrature monitors"),
 }
 NOT_YET = {}
 def main():
